@@ -309,8 +309,11 @@ func init() {
 			bfs("lsm", 5, 600, prm("oracle", "c29", "mode", "normal", "keyset", "drop", "keys", 4, "drops", true, "snapshots", false, "l0_tables", 1, "inmemory", true, "nofiles", true, "ops", "Sp1a Sp1b Sp2a Sq Dp1a F C0 C1 Yp1 Yp Yp1,q Yp1,p2 Yzz V"))})
 	planTable["C33"] = lsmPlan("Normal-mode histories mixing expiring (TTL 5 s), non-expiring and deleted versions with flushes, compactions, value-log GC and virtual-clock advances (11 s): after every transition Get and forward/reverse iteration show an entry iff now < expiresAt (and, for every history of up to 3 (quick) / 5 (thorough) steps over {TTL set, set, delete, clock advance, flush, compaction}, so do a Stream run and a Backup + Load into a fresh database); an expired newest version hides older ones; a newer plain write is visible.",
 		stateRule,
-		[]Stage{bfs("lsm", 5, 70, prm("oracle", "c12", "mode", "normal", "keys", 1, "ttl", true, "l0_tables", 1, "ops", "Sa La Da F C0 A O X")), en("c33stream", 16, 60, prm("len", 3))},
-		[]Stage{bfs("lsm", 7, 900, prm("oracle", "c12", "mode", "normal", "keys", 2, "ttl", true, "l0_tables", 1, "ops", "Sa La Sb Da F C0 C1 A O X")), bfs("lsm", 5, 600, prm("oracle", "c12", "mode", "normal", "keys", 1, "ttl", true, "big", true, "gc", true, "vlog_max_entries", 1, "l0_tables", 1, "ops", "Ba La Da F C0 G A")), en("c33stream", 16, 600, prm("len", 5))})
+		[]Stage{bfs("lsm", 5, 70, prm("oracle", "c12", "mode", "normal", "keys", 1, "ttl", true, "l0_tables", 1, "ops", "Sa La Da F C0 A O X")), en("c33stream", 16, 60, prm("len", 3)),
+			// a value-log value with a TTL whose file is rewritten by the GC while it is still live, then the clock passes the expiry
+			bfs("lsm", 3, 40, prm("oracle", "c12", "mode", "normal", "keys", 2, "ttl", true, "big", true, "gc", true, "vlog_max_entries", 1, "l0_tables", 1, "snapshots", false, "ops", "Qa Bb F C0 G A"), seq("Qa Bb F"), seq("Qa Bb F C0"))},
+		[]Stage{bfs("lsm", 7, 900, prm("oracle", "c12", "mode", "normal", "keys", 2, "ttl", true, "l0_tables", 1, "ops", "Sa La Sb Da F C0 C1 A O X")), bfs("lsm", 5, 600, prm("oracle", "c12", "mode", "normal", "keys", 1, "ttl", true, "big", true, "gc", true, "vlog_max_entries", 1, "l0_tables", 1, "ops", "Ba La Qa Da F C0 G A")), en("c33stream", 16, 600, prm("len", 5)),
+			bfs("lsm", 5, 600, prm("oracle", "c12", "mode", "normal", "keys", 2, "ttl", true, "big", true, "gc", true, "vlog_max_entries", 1, "l0_tables", 1, "snapshots", false, "ops", "Qa Bb Da F C0 G A"), seq("Qa Bb F"), seq("Qa Bb F C0"))})
 
 	planTable["C22"] = func(q bool) *Plan {
 		p := &Plan{Level: "model_checking", Engine: "E-sched + E-enum",
@@ -421,14 +424,14 @@ func init() {
 
 	planTable["C32"] = func(q bool) *Plan {
 		p := &Plan{Level: "model_checking", Engine: "E-enum + E-sched",
-			Text:      "Trie level: every pattern = prefix of length <= 3 over {a,b,0xff} x every ignore mask over 3 positions (written as lists and as ranges) against every key of length <= 4 over the same alphabet: Trie.Get equals a reference matcher; pairs/triples of patterns with deletion. DB level: a subscriber (patterns: one continuing with 0xFF, a plain prefix, one with an ignored position plus a second pattern, the empty prefix) is registered and durably blocked before two concurrent committers write matching and non-matching user keys; under every interleaving up to the bound it must receive exactly one KV (key, value, version, user meta) per matching user-key write, in commit-timestamp order, and nothing for a user key matching no pattern.",
+			Text:      "Trie level: every pattern = prefix of length <= 3 over {a,b,0xff} x every ignore mask over 3 positions (written as lists and as ranges) against every key of length <= 4 over the same alphabet: Trie.Get equals a reference matcher; pairs/triples of patterns with deletion. DB level: a subscriber (patterns: one continuing with 0xFF, a plain prefix, one with an ignored position plus a second pattern, the empty prefix; and, in managed mode, a prefix with writers that put two versions into one request through a managed write batch) is registered and durably blocked before two concurrent committers write matching and non-matching user keys; under every interleaving up to the bound it must receive exactly one KV (key, value, version, user meta) per matching user-key write, in commit-timestamp order, and nothing for a user key matching no pattern.",
 			Note:      "KVs for internal !badger! keys are ignored (the property speaks about user keys).",
 			Technique: "bounded-exhaustive enumeration (trie) + stateless model checking (publisher under the controlled scheduler)",
 			Rule:      "patterns x keys; 4 subscriber cases x schedules up to the bound"}
 		if q {
-			p.Stages = []Stage{en("c32trie", 8, 40, nil), sched("c32pub", 2, 4, 40, prm("cases", 4)), sched("c32pub", 3, 4, 30, prm("cases", 4))}
+			p.Stages = []Stage{en("c32trie", 8, 40, nil), sched("c32pub", 2, 5, 40, prm("cases", 5)), sched("c32pub", 3, 5, 30, prm("cases", 5))}
 		} else {
-			p.Stages = []Stage{en("c32trie", 16, 300, prm("stride", 1)), sched("c32pub", 3, 4, 600, prm("cases", 4))}
+			p.Stages = []Stage{en("c32trie", 16, 300, prm("stride", 1)), sched("c32pub", 3, 5, 600, prm("cases", 5))}
 		}
 		return p
 	}
@@ -483,7 +486,7 @@ func init() {
 		[]Stage{en("c26sw", 16, 1500, prm("full", true))})
 
 	planTable["C27"] = enumPlan("exploration",
-		"All operation sequences of length <= 4 (quick) / 5 (thorough) over {Set, Delete} x {x,y} for NewWriteBatch (normal DB) and NewWriteBatchAt(6), and over {SetEntryAt, DeleteAt} x {x,y} x {ts 5,7} for NewManagedWriteBatch, with the batch's transaction limit set so that it splits after every 1, 2 or 3 entries (and not at all); after Flush every key is read (managed: at every timestamp 4..8) and must show the LAST call for that key (and version).",
+		"All operation sequences of length <= 4 (quick) / 5 (thorough) over {Set, Delete} x {x,y} for NewWriteBatch (normal DB) and NewWriteBatchAt(6), (NewWriteBatchAt additionally mixes in SetEntryAt / DeleteAt on x at 5 and 7), and over {SetEntryAt, DeleteAt} x {x,y} x {ts 5,7} for NewManagedWriteBatch, with the batch's transaction limit set so that it splits after every 1, 2 or 3 entries (and not at all); after Flush every key is read (managed: at every timestamp 4..8) and must show the LAST call for that key (and version).",
 		"Runs on an in-memory DB; the split is forced through the same count limit that production uses (maxBatchCount).",
 		"nested enumeration; distinct = distinct (mode, split, operation sequence)",
 		[]Stage{en("c27batch", 16, 60, prm("len", 4))},
